@@ -421,6 +421,123 @@ func c03Class(name string, quick, thorough, minNT int, gen func(r *kit.Rand) str
 	}
 }
 
+
+// ---------------------------------------------------------------------------
+// Sequences: several measurement texts, one per line, read by ONE Reader (and
+// across one Reset of it). What a line yields is a function of that line
+// alone, so no text - accepted or rejected - may influence a later one.
+
+type c03SeqCase struct {
+	Fields []kit.B
+	Reset  int // the Reader is Reset to a new input before line Reset (0 = never)
+}
+
+func c03SeqCheck(c c03SeqCase) *kit.Fail {
+	if len(c.Fields) == 0 {
+		return nil
+	}
+	for _, f := range c.Fields {
+		if !c03IsField(string(f)) {
+			return nil
+		}
+	}
+	text := func(fs []kit.B) string {
+		var sb strings.Builder
+		for _, f := range fs {
+			sb.WriteString("BenchmarkX 1 " + string(f) + " foo\n")
+		}
+		return sb.String()
+	}
+	cut := len(c.Fields)
+	if c.Reset > 0 && c.Reset < len(c.Fields) {
+		cut = c.Reset
+	}
+	rd := benchfmt.NewReader(strings.NewReader(text(c.Fields[:cut])), "in")
+	i := 0
+	drain := func(upTo int) *kit.Fail {
+		for rd.Scan() {
+			if i >= upTo {
+				return kit.Failf("record-count", "more than %d records for %d lines", upTo, upTo)
+			}
+			s := string(c.Fields[i])
+			want, perr := strconv.ParseFloat(s, 64)
+			switch r := rd.Result().(type) {
+			case *benchfmt.Result:
+				if perr != nil {
+					return kit.Failf("value-accepted-bad", "line %d of %q: strconv.ParseFloat(%q) fails (%v) but reader produced %v", i+1, c.Fields, s, perr, r.Values)
+				}
+				if len(r.Values) != 1 || r.Values[0].Unit != "foo" {
+					return kit.Failf("value-shape", "line %d of %q: values %+v", i+1, c.Fields, r.Values)
+				}
+				got := r.Values[0].Value
+				if math.IsNaN(want) != math.IsNaN(got) || (!math.IsNaN(want) && math.Float64bits(got) != math.Float64bits(want)) {
+					return kit.Failf("value-wrong-in-sequence", "line %d of %q (Reset before line %d): got %v (%016x) want %v (%016x) for %q", i+1, c.Fields, c.Reset, got, math.Float64bits(got), want, math.Float64bits(want), s)
+				}
+			case *benchfmt.SyntaxError:
+				if perr == nil {
+					return kit.Failf("value-rejected-good", "line %d of %q: strconv.ParseFloat(%q)=%v but reader reported %v", i+1, c.Fields, s, want, r)
+				}
+			default:
+				return kit.Failf("record-kind", "unexpected record %T", r)
+			}
+			i++
+		}
+		if err := rd.Err(); err != nil {
+			return kit.Failf("io-error", "Err()=%v", err)
+		}
+		if i != upTo {
+			return kit.Failf("record-count", "%d records for %d lines of %q", i, upTo, c.Fields)
+		}
+		return nil
+	}
+	if f := drain(cut); f != nil {
+		return f
+	}
+	if cut < len(c.Fields) {
+		rd.Reset(strings.NewReader(text(c.Fields[cut:])), "in2")
+		return drain(len(c.Fields))
+	}
+	return nil
+}
+
+func c03SeqGen(r *kit.Rand, i int) c03SeqCase {
+	gens := []func(*kit.Rand) string{c03Structured, c03Halfway, c03Hex, c03Underscore, c03Special, c03Integer, c03Soup}
+	var c c03SeqCase
+	for n := r.Range(2, 8); n > 0; n-- {
+		s := kit.Pick(r, gens)(r)
+		if r.Chance(0.3) {
+			// a near miss: a valid-looking text damaged at one place
+			b := []byte(s)
+			if len(b) > 0 {
+				p := r.Intn(len(b) + 1)
+				b = append(b[:p], append([]byte{kit.Pick(r, []byte("x.e-+_9"))}, b[p:]...)...)
+			}
+			s = string(b)
+		}
+		c.Fields = append(c.Fields, kit.B(s))
+	}
+	if r.Chance(0.4) {
+		c.Reset = r.Range(1, len(c.Fields)-1)
+	}
+	return c
+}
+
+func c03SeqNonTrivial(c c03SeqCase) bool {
+	// a rejected text followed, later, by an accepted one that is not a short plain integer
+	bad := false
+	for _, f := range c.Fields {
+		if !c03IsField(string(f)) {
+			return false
+		}
+		if _, err := strconv.ParseFloat(string(f), 64); err != nil {
+			bad = true
+		} else if bad && c03NonTrivial(c03Case{S: f}) {
+			return true
+		}
+	}
+	return false
+}
+
 func TestVerifC03(t *testing.T) {
 	edges := kit.Class[c03Case]{
 		Name: "edges",
@@ -458,5 +575,11 @@ func TestVerifC03(t *testing.T) {
 		c03Class("inf-nan", 20000, 500000, 40, c03Special),
 		c03Class("integer", 80000, 4000000, 20000, c03Integer),
 		c03Class("soup", 100000, 5000000, 100, c03Soup),
+		kit.Class[c03SeqCase]{
+			Name: "sequences-one-reader", Quick: 40000, Thorough: 2000000,
+			Gen: c03SeqGen, Check: c03SeqCheck, NonTrivial: c03SeqNonTrivial, MinNonTrivial: 5000,
+			Rule:            "2-8 measurement texts drawn from all generators above (30% damaged at one place), one per line, read by ONE Reader, 40% with a Reset to a second input in between; every line judged against strconv on its own; non-trivial = a rejected text is followed later by an accepted one that is not a short plain integer",
+			HangIsViolation: true,
+		},
 	)
 }
